@@ -236,6 +236,10 @@ theorem C11_results_pass_through_utils_call :
 theorem C11_every_argument_is_converted :
     Skeleton.current.clConvertsEveryArg = true ∧ Skeleton.current.clStoresCreatedClosure = true := by decide
 
+/-- `Receive` fails only on a closed table — a context that is done already is registered and reported through the receive function, to that one caller — and the stub panics only on failures of the link (both checked against the regenerated skeleton; `utils/broadcaster.go` is outside this property's anchors). Otherwise a handler that invokes a callable (or makes any call) with a context of its own that has expired ends the link: every other invocation — running or later, with a perfectly live context — then fails with `closed` and the caller's function never runs for it. -/
+theorem C11_an_invocation_with_an_expired_context_fails_alone :
+    Skeleton.current.bcReceiveErrorsOnlyClosed = true ∧ Skeleton.current.panicSitesCanonical = true := by decide
+
 end Panrpc.Cv
 
 #print axioms Panrpc.Cv.C11_invocations_run_outside_the_table_lock
@@ -258,3 +262,4 @@ end Panrpc.Cv
 #print axioms Panrpc.Cv.C11_proxy_matches_source
 #print axioms Panrpc.Cv.C11_results_pass_through_utils_call
 #print axioms Panrpc.Cv.C11_every_argument_is_converted
+#print axioms Panrpc.Cv.C11_an_invocation_with_an_expired_context_fails_alone
